@@ -469,6 +469,9 @@ def check(prop, tier, seed, replay=None, only_suite=None, ncases=None):
         impl, vals, tm = run_suite(mod, sname, suite, cases)
         timing[sname] = {"impl_s": round(tm[0], 2), "coq_s": round(tm[1], 2), "cases": len(cases)}
         for i, c in enumerate(cases):
+            if isinstance(impl[i], dict) and impl[i].get("outcome") == "skipped":
+                info[f"{sname}.skipped"] = info.get(f"{sname}.skipped", 0) + 1
+                continue
             evaluations += 1
             v = vals[i]
             if isinstance(v, tuple) and v and v[0] == "coq-error":
